@@ -168,7 +168,7 @@ def generate(st):
                 pos.append(value(first=(len(pos) == 0)))
         extra = []
         if (s['varkw'] or 'kws' in chain_types) and g.random() < 0.4:
-            for nm in g.sample(['zz', 'yy', 'k9'], g.randint(1, 2)):
+            for nm in g.sample(['zz', 'yy', 'k9'] + (['args', 'kw'] if s['varkw'] else []), g.randint(1, 2)):
                 extra.append([nm, value()])
         return {'pos': [_enc(v) for v in pos], 'kw': [[k, _enc(v)] for k, v in kw], 'extra': [[k, _enc(v)] for k, v in extra]}
 
@@ -218,6 +218,8 @@ def generate(st):
                         c3 = _copy.deepcopy(c)
                         c3['obj'] = j
                         ops.append(c3)
+        elif r < 0.8005 and 'cache' in cfg['decs'] and not retry:
+            ops.append({'op': 'flood', 'n': g.choice([300, 1100, 4200, 4200, 9000])})
         elif r < 0.815 and 'cache' in cfg['decs'] and not retry:
             extra_ = [d_ for d_ in cfg['decs'] if d_ in ('kws', 'loop', 'pd2np')]
             stack = [{'t': 'cache'}]
@@ -714,6 +716,23 @@ def execute(trace, ctx=None):
                 else:
                     a['e%d' % len(a)] = op['v']
                 res.probe('argument-object-edited-between-calls')
+            elif kind == 'flood':
+                # one cached function asked for thousands of distinct arguments, then for the first ones again: a memo has no bound
+                evals_ = []
+
+                def many(a):
+                    evals_.append(a)
+                    return ('M', a)
+                g2 = cache(many)
+                n_ = int(op['n'])
+                firsts = [g2(i) for i in range(n_)]
+                c1_ = len(evals_)
+                again = [g2(i) for i in (0, 1, 2, n_ // 2, n_ - 1)]
+                if c1_ != n_ or len(evals_) != n_:
+                    raise Violation('evaluated-more-than-once', 'after %d distinct calls, asking for 5 of them again evaluated f %d more times' % (n_, len(evals_) - n_), k)
+                if any(x is not firsts[i] for x, i in zip(again, (0, 1, 2, n_ // 2, n_ - 1))):
+                    raise Violation('not-first-result', 'after %d distinct calls a repeated call did not return the first result object' % n_, k)
+                res.probe('flood-of-distinct-keys')
             elif kind == 'recursion':
                 # a function that calls ITSELF through its cached wrapper (fib style): the memo is being filled while the
                 # outermost call is still running.  n+1 distinct arguments -> n+1 evaluations, none afterwards.
@@ -891,7 +910,7 @@ def signature(trace, violation):
 
 PROBES = ['cache-hit', 'cache-hit-after-rewrap', 'multi-keyword-call', 'unhashable-argument', 'fallback-taken', 'retry-then-success',
           'same-decorator-through-chain', 'same-decorator-directly', 'clear_cache', 'argspec-checked', 'getcallargs-checked',
-          'call_with_callargs-checked', 'pd2np-without-first-argument', 'caller-edits-mutable-fallback', 'falsy-result-cached', 'long-lived-argument-object', 'argument-object-edited-between-calls', 'recursion-through-the-cache']
+          'call_with_callargs-checked', 'pd2np-without-first-argument', 'caller-edits-mutable-fallback', 'falsy-result-cached', 'long-lived-argument-object', 'argument-object-edited-between-calls', 'recursion-through-the-cache', 'flood-of-distinct-keys']
 TIERS = {'quick': {'runs': 30000, 'wallcap': 50}, 'thorough': {'runs': 1500000, 'wallcap': 800}}
 COMPONENTS = {
     'real': ['pyg_base._decorators wrapper / try_value / try_back / kwargs_support', 'pyg_base._cache cache_func', 'pyg_base._loop loops (non-container input) / pd2np (non-pandas input)',
